@@ -20,7 +20,8 @@ def _jobs(tier):
     js = [dict(name="constructor", fn="constructor", args=[], collect_models=1),
           dict(name="step", fn="step", args=[], collect_models=3, expect=["n-th sequence == start + n mod 10", "update keeps the counter"]),
           dict(name="wrap", fn="wrap", args=[], collect_models=2, expect=["state after r+10 requests == state after r requests"]),
-          dict(name="start_kinds", fn="start_kinds", args=[], collect_models=1)]
+          dict(name="start_kinds", fn="start_kinds", args=[], collect_models=1),
+          dict(name="failed_request", fn="failed_request", args=[], collect_models=2, expect=["failed requests do not advance the counter"])]
     # long runs: the inductive step argues from observational equivalence after ten requests; a hidden counter that only
     # wraps at a machine width (seed C13j: & 0xFF) needs the run itself
     for n, upd in ([(300, 0), (300, 7), (1100, 0)] if tier == "quick" else [(300, 0), (300, 7), (1100, 0), (1100, 13), (70000, 0), (70000, 1000)]):
